@@ -9,6 +9,11 @@ from circuits import BaseComponent, Component, Event, handler
 NAMES = ['ea', 'eb', 'ec', 'ed']
 CHANS = ['*', 'a', 'b']
 EVCLS = {n: type(n, (Event,), {}) for n in NAMES}
+
+
+class vtrig(Event):
+    """carries a structural operation that its handler performs at the moment the event is dispatched"""
+
 NCOMP = 5
 
 
@@ -87,6 +92,15 @@ class World:
             self.comps.append(c)
         self.methods = {}
         self.funcs = {}
+        world = self
+        for c in self.comps:
+            # addressed to the component instance: performs the operation it carries when it is DISPATCHED, i.e. in
+            # the middle of a flush batch (not a handler of the model: the name is none of NAMES)
+            @handler('vtrig', channel=c)
+            def _vtrig(self, event, op):
+                world.apply(op)
+            _vtrig.__name__ = 'vtrig_handler'
+            c.addHandler(_vtrig)
         for h in case['handlers']:
             self.funcs[h['hid']] = self.mk(h)
 
@@ -110,6 +124,21 @@ class World:
                 log.append((event.args[0], hid))
         f.__name__ = 'vh_%d' % hid
         return f
+
+    def apply(self, o):
+        """perform an add / remove operation (only valid ones are generated for in-flush use)"""
+        c = self.comps[o['c']]
+        if o['op'] == 'add':
+            self.methods[(o['c'], o['h'])] = c.addHandler(self.funcs[o['h']])
+        else:
+            m = self.methods.get((o['c'], o['h']))
+            if m is None:
+                import types
+                m = types.MethodType(self.funcs[o['h']], c)
+            if o['ev'] is None:
+                c.removeHandler(m)
+            else:
+                c.removeHandler(m, o['ev'])
 
     def subtree(self, c):
         out = [c._vid]
@@ -299,6 +328,32 @@ class C01(Prop):
                         ops.append({'op': 'fire', 'x': x, 'e': eid, 'n': key[0], 'ch': key[1]})
                         eid += 1
                         ops.append({'op': 'flush', 'r': x})
+            elif r < 0.65:
+                # a handler changes the handler set in the MIDDLE of a flush batch, between two events of the same key
+                h = rng.choice([h for h in handlers if not h['names']] or handlers) if rng.random() < 0.4 else rng.choice(handlers)
+                c = h['owner']
+                r0 = root(c)
+                have = all((k, h['hid']) in regd[c] for k in keys(h, None))
+                nm = rng.choice(h['names']) if h['names'] else rng.choice(NAMES)
+                ch = rng.choice(['*', comps[c], {'comp': c}] + ([h['chan']] if h['chan'] is not None else []))
+                if rng.random() < 0.5:
+                    # make sure the key is cached by an earlier batch
+                    ops.append({'op': 'fire', 'x': r0, 'e': eid, 'n': nm, 'ch': ch})
+                    eid += 1
+                    ops.append({'op': 'flush', 'r': r0})
+                items = [{'op': 'fire', 'x': r0, 'e': eid, 'n': nm, 'ch': ch}]
+                eid += 1
+                if have:
+                    items.append({'op': 'remove', 'c': c, 'h': h['hid'], 'ev': None})
+                    for k in keys(h, None):
+                        regd[c].discard((k, h['hid']))
+                else:
+                    items.append({'op': 'add', 'c': c, 'h': h['hid']})
+                    for k in keys(h, None):
+                        regd[c].add((k, h['hid']))
+                items.append({'op': 'fire', 'x': r0, 'e': eid, 'n': nm, 'ch': ch})
+                eid += 1
+                ops.append({'op': 'inflush', 'r': r0, 'items': items})
             elif r < 0.86:
                 if recent and rng.random() < 0.6:
                     x, nm, ch = rng.choice(recent)       # same cache key again, after whatever happened in between
@@ -390,6 +445,18 @@ class C01(Prop):
                 fired[o['e']] = o
             elif k == 'flush':
                 w.comps[o['r']].flush()
+            elif k == 'inflush':
+                # one batch: the events in order, the operations carried by trigger events between them
+                r = w.comps[o['r']]
+                for it in o['items']:
+                    if it['op'] == 'fire':
+                        ev = EVCLS[it['n']](it['e'])
+                        evobj[it['e']] = ev
+                        w.comps[it['x']].fire(ev, w.real_chan(it['ch']))
+                        fired[it['e']] = it
+                    else:
+                        r.fire(vtrig(it), r)
+                r.flush()
             graph_err = graph_err or w.check_graph()
         per = {}
         order = []
@@ -408,7 +475,7 @@ class C01(Prop):
         hs = {h['hid']: h for h in case['handlers']}
         cs = '[%s]' % '; '.join('(%s, %s)' % (natlit(i), chan_term(ch)) for i, ch in enumerate(case['comps']))
         ops = []
-        for o in case['ops']:
+        for o in self.expanded(case):
             k = o['op']
             if k == 'add':
                 ops.append('OAdd %s %s' % (natlit(o['c']), hdecl_term(hs[o['h']])))
@@ -429,10 +496,26 @@ class C01(Prop):
         return 'obs_nonempty %s [%s]' % (cs, '; '.join(ops))
 
     @staticmethod
+    def expanded(case):
+        """the history with every in-flush group written out: an operation performed by a handler in the middle of a
+        batch acts exactly like flush(events before it); operation; flush(events after it) - deliveries depend only on
+        the handler set in force when each event is dispatched"""
+        out = []
+        for o in case['ops']:
+            if o['op'] != 'inflush':
+                out.append(o)
+                continue
+            for it in o['items']:
+                out.append(it)
+                if it['op'] == 'fire':
+                    out.append({'op': 'flush', 'r': o['r']})
+        return out
+
+    @staticmethod
     def aliases(case):
         """firing id -> id of the first firing of the same Event object (only for re-fired objects)"""
         al = {}
-        for o in case['ops']:
+        for o in C01.expanded(case):
             if o['op'] == 'fire' and 'same' in o:
                 al[o['e']] = al.get(o['same'], o['same'])
         return al
@@ -481,7 +564,7 @@ class C01(Prop):
                         if nm in ('*all*', name) and match(i, hs[hid], name, ch) and hid not in exp:
                             exp.append(hid)
                 expected[e] = sorted(exp)
-        for o in case['ops']:
+        for o in self.expanded(case):
             k = o['op']
             if k == 'add':
                 h = hs[o['h']]
